@@ -644,10 +644,17 @@ func r15waste(c *an.Ctx) {
 			if !ok {
 				return
 			}
-			if ln, isLen := bo.X.(*ssa.Call); isLen && an.CalleeName(ln) == "builtin len" && bo.Op == token.GEQ && bo.Y == ssa.Value(m.Params[2]) {
-				okLoop = true
+			// the loop is left (break / return) once count <= len(collected), in any spelling, or on equality
+			isLen := func(v ssa.Value) bool {
+				ln, ok := v.(*ssa.Call)
+				return ok && an.CalleeName(ln) == "builtin len"
 			}
-			if ln, isLen := bo.X.(*ssa.Call); isLen && an.CalleeName(ln) == "builtin len" && bo.Op == token.EQL && bo.Y == ssa.Value(m.Params[2]) {
+			for _, br := range []bool{true, false} {
+				if lo, hi, strict, isOrd := an.OrderFact(an.CondEdge{If: iff, Branch: br}); isOrd && !strict && lo == ssa.Value(m.Params[2]) && isLen(hi) {
+					okLoop = true
+				}
+			}
+			if bo.Op == token.EQL && ((isLen(bo.X) && bo.Y == ssa.Value(m.Params[2])) || (isLen(bo.Y) && bo.X == ssa.Value(m.Params[2]))) {
 				okLoop = true
 			}
 		})
